@@ -28,6 +28,15 @@ CHECKS = {
  "C09": ("S", "explicit-state BFS over programs of configuration calls (Use / Prefix / nested Prefix / Resource / Handle with middlewares / Remove / Clean; Group.Use/New/Add) on the real router, onion-order reference model on every state",
          "Every program up to depth 5 (quick) / 7 (thorough), with and without WithTrace, and group programs: for each handler kind of each live pattern and for 404, TRACE, OPTIONS *, the '*' 405 and the group not-found, the wrapper chain seen at request time equals the documented order; each wrapper stems from exactly one factory call with the right (method, pattern, router); each step causes exactly the predicted number of factory invocations.",
          "Bounded depth; fixed middleware names and facade objects (P1=/p[D], P2=P1/q[E,F], R=P1/r/{id}[G]).", "4/C09"),
+ "C10": ("I", "exhaustive small-scope enumeration: patterns x all params maps over a value set x every URL entry point and mode x route-table situations, against an independent tokenizer/instantiator; round trip over every dispatch observed on all tables of <=2 patterns",
+         "Every pattern of the dispatch pool under three interceptor sets plus one malformed pattern per documented error class; every params map over the pattern's names plus an extra key with each key absent or bound to one of 10 values (1.15M URL calls): mux.URL, Router.URL strict/non-strict with three URL-domain spellings, Prefix.URL at three cuts, Resource.URL; strict mode where the pattern is live, removed again, only structural, or absent. Every (path, route, params) produced by dispatch is fed back through URL strict and non-strict.",
+         "Finite value set and pattern pool; the reference tokenizer is the trusted statement of the pattern syntax.", "4/C10"),
+ "C11": ("I", "exhaustive enumeration of the full product CORS configuration x request against a reference decision table (safety clauses)",
+         "All 240 configurations (+ invalid ones, which must be rejected) x 6720 requests (method x path x Origin x Access-Control-Request-Method x Access-Control-Request-Headers spellings) = 1.29M dispatches; every response header block as sent is checked: Allow-Origin only '*' when configured or the verbatim listed Origin, credentials only with an echoed listed origin, none on 404/405, unserved-method preflights, or preflights with a disallowed header (case-insensitive).",
+         "Finite classes of Origin / header spellings; one route table (/r GET, /w GET+POST).", "4/C11-C12"),
+ "C12": ("I", "exhaustive enumeration of the full product CORS configuration x request against a reference decision table (completeness clauses)",
+         "Same product as C11: for allowed origins on served methods the grant headers, credentials and expose list must be exactly as configured; successful preflights carry Allow-Methods = the route's Allow set, the configured Allow-Headers and Max-Age; non-preflights carry none of them; Vary names Origin / Access-Control-Request-Method / -Headers as the property prescribes.",
+         "As C11; requests whose Access-Control-Request-Headers consists only of empty list items are outside the completeness oracle (ambiguous).", "4/C11-C12"),
  "C17": ("S", "explicit-state BFS over registration histories; in every state every member of a rejected-call set is executed on a replayed copy and the full observation vector is compared before/after; positive clauses by exhaustive enumeration of ordered pattern pairs",
          "Every state over the C04 alphabet up to depth 2 (quick) / 4 (thorough), with and without WithTrace, x ~80 rejected Handle calls (duplicates, bad method lists in every position, malformed patterns sharing prefixes, rename-only patterns): must panic with an error value and leave Routes(), all dispatch outcomes, Allow headers and OPTIONS * unchanged. All ordered pairs over the dispatch pool and its renamed / '-'-flipped variants decide always-rejected and never-falsely-ambiguous.",
          "Bounded depth and pools; internal restructuring without observable effect is reported as a note only, as the property is about observable state.", "4/C17"),
